@@ -253,13 +253,14 @@ def _run(ctx):
         c, amt = ent
         ctx.inst("C05.R5", label, pred(amt), "%s on (%s, %s) with the expected amount wiring" % (nm, bf[0], af[0]), A._pvs(amt), c.loc)
     # calc_amount / calc_value argument wiring
+    _ords5 = Ordinals()
     for c in calls_named("calc_amount"):
         v = ctx.slicer.operand(h, c.args[0], at=c.block)
         pr = ctx.slicer.operand(h, c.args[1], at=c.block)
         dec = ctx.slicer.operand(h, c.args[2], at=c.block)
         okp = pr.has_call(prog, {"name": "get_price_of_type"}) and not pr.has_call(prog, {"name": "fetch_asset_price_for_bank_low_bias"})
         okdec = "liab_bank" in acct_fields(dec, skey) and "asset_bank" not in acct_fields(dec, skey)
-        ctx.inst("C05.R5", "calc_amount@%s" % c.loc.split(":")[-1], v.has_call(prog, {"name": "calc_value"}) and okp and okdec, "debt quantity = calc_amount(collateral value, high debt price, debt bank decimals)",
+        ctx.inst("C05.R5", _ords5.key("calc_amount"), v.has_call(prog, {"name": "calc_value"}) and okp and okdec, "debt quantity = calc_amount(collateral value, high debt price, debt bank decimals)",
                  "price-ok=%s decimals-bank=%s" % (okp, acct_fields(dec, skey)), c.loc)
     for c in calls_named("calc_value"):
         a0 = ctx.slicer.operand(h, c.args[0], at=c.block)
@@ -268,7 +269,7 @@ def _run(ctx):
         okp = pr.has_call(prog, {"name": "fetch_asset_price_for_bank_low_bias"}) and not pr.has_call(prog, {"name": "get_price_of_type"}) or \
             (pr.has_call(prog, {"name": "fetch_asset_price_for_bank_low_bias"}) and acct_fields(pr, skey) == ["asset_bank"])
         okdec = "asset_bank" in acct_fields(dec, skey) and "liab_bank" not in acct_fields(dec, skey)
-        ctx.inst("C05.R5", "calc_value@%s" % c.loc.split(":")[-1], 2 in a0.params and okp and okdec, "collateral value = calc_value(asset_amount, low asset price, asset bank decimals, discount)",
+        ctx.inst("C05.R5", _ords5.key("calc_value"), 2 in a0.params and okp and okdec, "collateral value = calc_value(asset_amount, low asset price, asset bank decimals, discount)",
                  "price-ok=%s decimals-bank=%s" % (okp, acct_fields(dec, skey)), c.loc)
     # insurance fee: difference, split into whole tokens (transfer) and fraction (bucket)
     tr = calls_named("withdraw_spl_transfer")
